@@ -193,6 +193,10 @@ func genCase(rnd *rand.Rand, cfg genCfg, id int) *Case {
 		c.Cmds["wait"] = []string{"done", "done", "pend", "fail"}[rnd.Intn(4)]
 		g.hostWait = true
 	}
+	if cfg.PendCmds && rnd.Intn(3) == 0 {
+		// the host registers a handler under `stop`: <<stop>> still ends the dialogue and is never dispatched
+		c.Cmds["stop"] = []string{"pend", "done", "fail"}[rnd.Intn(3)]
+	}
 	nn := 1 + rnd.Intn(cfg.MaxNodes)
 	g.titles = nodeTitles[:nn]
 	if cfg.CountJumps {
